@@ -511,14 +511,16 @@ type UfSpec struct {
 }
 
 type SpecDB struct {
-	Globals map[string]*GhostField // ghost globals: name -> map[ref]V
-	Ufs    map[string]*UfSpec
-	Funcs  map[string]*FuncSpec
-	Preds  map[string]*PredSpec
-	Ghosts map[string]*GhostField // key pkg.Struct.Name
-	Lemmas map[string]*LemmaSpec
-	Consts map[string]string
-	Files  []string
+	Structural []string               // sink functions: reaching one makes an exported function a structural entry point
+	LockExempt map[string]string      // entry points exempt from the lockfast rule, with the reason
+	Globals    map[string]*GhostField // ghost globals: name -> map[ref]V
+	Ufs        map[string]*UfSpec
+	Funcs      map[string]*FuncSpec
+	Preds      map[string]*PredSpec
+	Ghosts     map[string]*GhostField // key pkg.Struct.Name
+	Lemmas     map[string]*LemmaSpec
+	Consts     map[string]string
+	Files      []string
 }
 
 func (db *SpecDB) flag(key, f string) bool {
@@ -530,11 +532,11 @@ func (db *SpecDB) flag(key, f string) bool {
 }
 
 var clauseKinds = map[string]bool{"requires": true, "ensures": true, "panics_if": true, "modifies": true, "ghost": true,
-	"inv": true, "lockfast": true, "loop": true, "flag": true, "assume": true, "known": true, "on_panic": true, "loopmod": true, "decreases": true, "props": true, "truncates": true, "wraps": true}
+	"inv": true, "lockfast": true, "loop": true, "flag": true, "assume": true, "known": true, "on_panic": true, "loopmod": true, "decreases": true, "props": true, "truncates": true, "wraps": true, "dirty_unless": true, "hint": true}
 
 // loadSpecs reads every verif_contracts*.go file of the library packages.
 func loadSpecs(repo string, tags string) (*SpecDB, error) {
-	db := &SpecDB{Globals: map[string]*GhostField{}, Ufs: map[string]*UfSpec{}, Funcs: map[string]*FuncSpec{}, Preds: map[string]*PredSpec{}, Ghosts: map[string]*GhostField{}, Lemmas: map[string]*LemmaSpec{}, Consts: map[string]string{}}
+	db := &SpecDB{LockExempt: map[string]string{}, Globals: map[string]*GhostField{}, Ufs: map[string]*UfSpec{}, Funcs: map[string]*FuncSpec{}, Preds: map[string]*PredSpec{}, Ghosts: map[string]*GhostField{}, Lemmas: map[string]*LemmaSpec{}, Consts: map[string]string{}}
 	tiny := false
 	for _, t := range strings.Split(tags, ",") {
 		if t == "tiny" {
@@ -646,6 +648,18 @@ func (db *SpecDB) loadFile(path, pkg string, tiny bool) error {
 			}
 			pp := &parser{toks: toks, src: hs}
 			db.Ufs[strings.TrimSpace(hs[:i])] = &UfSpec{Name: strings.TrimSpace(hs[:i]), Params: bs, Ret: pp.typeExpr(), Pkg: pkg}
+		case "structural":
+			full := head
+			for _, b := range it.body {
+				full += " " + b.text
+			}
+			db.Structural = append(db.Structural, strings.Fields(full)[1:]...)
+		case "lockexempt":
+			f := strings.Fields(head)
+			if len(f) < 3 {
+				return fmt.Errorf("%s:%d: lockexempt key reason", path, it.headLine)
+			}
+			db.LockExempt[f[1]] = strings.Join(f[2:], " ")
 		case "ghostglobal":
 			f := strings.Fields(head)
 			if len(f) < 3 {
@@ -752,7 +766,7 @@ func parseClause(text string) (*Clause, error) {
 	}
 	var err error
 	switch cl.Kind {
-	case "requires", "ensures", "panics_if", "inv", "lockfast", "assume", "on_panic":
+	case "requires", "ensures", "panics_if", "inv", "lockfast", "assume", "on_panic", "dirty_unless", "hint":
 		cl.E, err = parseExpr(rest)
 	case "known":
 		// known <gap-name>: requires <expr>
